@@ -66,8 +66,24 @@ def run_case(rng, idx, tier):
         ev["gjk_not_overlapping"] += 1
         rec.update(events=ev, viol=[], inconcl=["gjk does not report an overlap (d=%.3g, depth %.3g)" % (d, info["ub"])])
         return rec
-    simplex = np.array(simplex, dtype=float)
-    is_tetra = monitors.simplex_is_tetrahedron(simplex, pa, pb)
+    # batch pattern (history clause): results of one query must survive later queries. The simplex object
+    # returned by gjk is kept as it is, another gjk query runs, and only then EPA gets the stored simplex.
+    snapshot = np.array(simplex, dtype=float)
+    is_tetra = monitors.simplex_is_tetrahedron(snapshot, pa, pb)
+    try:
+        other = pairs.make_pair(rng, None, None)
+        gjk.gjk(*pairs.build_pair(other[0], other[1]))
+        gjk.gjk(B, A)
+    except Exception:  # noqa: BLE001
+        pass
+    ev["aliasing_checks"] = 1
+    same = np.array_equal(np.asarray(simplex, float), snapshot, equal_nan=True)
+    if not same:
+        rec.update(events=ev, viol=[{"key": {"kind": "result-mutated-by-later-query", "what": "simplex"}, "err": None,
+                                     "msg": "the simplex returned by gjk(%s,%s) changed after later gjk queries (shared buffer?)" % names}],
+                   worst=worst)
+        return rec
+    simplex = np.asarray(simplex, dtype=float)      # still the object gjk returned
     if not is_tetra:
         ev["not_a_tetrahedron"] += 1
     polytope = info["exact"] is not None
